@@ -516,8 +516,28 @@ func TestC27(t *testing.T) {
 			return
 		}
 		pp := c.P.forEra(era)
+		snapBefore := snapshotQuantities(dtx)
 		ruleErr := conservationRule(era)(dtx, c.Slot, st, pp)
 		fullErr := common.VerifyTransaction(dtx, c.Slot, st, pp, rulesFor(era))
+		// validation must be a pure observer: same outputs afterwards, same verdict again
+		ruleErr2 := conservationRule(era)(dtx, c.Slot, st, pp)
+		if diff := diffSnapshots(snapBefore, snapshotQuantities(dtx)); diff != "" {
+			cs := describeCase(c)
+			cs["before"] = snapBefore
+			if rec.Fail(rt, fmt.Sprintf("C27:%s:rule-mutates-output-quantity", era),
+				fmt.Sprintf("%s: validating the transaction changed the values its outputs carry: %s", era, diff), cs) {
+				return
+			}
+		}
+		if (ruleErr == nil) != (ruleErr2 == nil) {
+			if rec.Fail(rt, fmt.Sprintf("C27:%s:second-run-of-conservation-rule-differs", era),
+				fmt.Sprintf("%s: the conservation rule gives %v and then %v on the same decoded transaction", era, ruleErr, ruleErr2), describeCase(c)) {
+				return
+			}
+		}
+		if assetInSeveralOutputs(c.Tx) {
+			rec.Class("same_asset_in_several_outputs")
+		}
 		want, why := refBalanced(refConsumed(c.Tx, c.P), refProduced(c.Tx, c.P, c.SS))
 		rec.Eval()
 
